@@ -41,6 +41,10 @@ CFG = {
         "Swat4.C09.facts_tx_provenance",
         "Swat4.C09.facts_lock_key",
         "Swat4.C09.facts_lock_setnx",
+        "Swat4.C09.Example.init_s2",
+        "Swat4.C09.Example.listing_skips_removed_witness",
+        "Swat4.C09.C09_listing_total",
+        "Swat4.C09.C09_log_prefix",
     ],
     "shards": (4, 16),
     "nontrivial": _c09_nontrivial,
@@ -100,7 +104,10 @@ CFG = {
                 "error committed nothing; C09_bounded/C09_finishes - a call executes at "
                 "most 75 (<= 5*16) storage commands in any schedule and has returned once scheduled 80 times; C09_listing - "
                 "Filter's HMGET step cannot fail and returns only records stored at that instant; C09_listing_committed - each of "
-                "them is an initial row or exactly the record saved by a logged commit. C09_refines_spec / C09_committed_result_spec - "
+                "them is an initial row or exactly the record saved by a logged commit; listing_skips_removed_witness - a checked run in which a Remove commits "
+                "between the reader's index read and its HMGET: the reader skips the vanished key and returns the other record; C09_listing_total - from any "
+                "well-formed initial system with a Filter call about to start, after ANY schedule the call is still a reader, has finished once it was "
+                "scheduled twice, and every record it finished with is a committed version (initial row or record saved by a logged commit; C09_log_prefix: the log only grows). C09_refines_spec / C09_committed_result_spec - "
                 "through C11's abstraction relation Rel: from an initial store standing for specification state a0, after any schedule "
                 "the store stands for a0 with the committed operations folded in commit order by the SPECIFICATION's add/update/remove "
                 "(Spec/Registry.lean), and the n-th committed call returns the specification's result on the state after the first n. "
